@@ -8,7 +8,7 @@ use std::sync::Arc;
 
 use thiserror::Error;
 
-use crate::cas_manager::{CasManager, CasManagerError};
+use crate::cas_manager::{CasIoOperation, CasManager, CasManagerError};
 use crate::index::{Index, IndexError, IndexReadGuard, IndexStateItem};
 use crate::orphan::OrphanStats;
 use crate::settings::{DbSettings, SettingsError, SettingsPersister};
@@ -291,21 +291,25 @@ where
     /// Get a blob by its key.
     /// Returns `Ok(None)` if the key does not exist.
     pub fn get(&self, key: &K) -> Result<Option<bytes::Bytes>, LibError> {
-        self.with_blob_item(key, |item| self.cas_manager.read_blob(&item.blob_hash))
+        self.with_blob_file(key, CasIoOperation::ReadContent, |_item, path, file| {
+            CasManager::read_blob(path, file)
+        })
     }
 
     /// Get the size of a blob by its key.
     /// Returns `Ok(None)` if the key does not exist.
     /// Uses index metadata only; no blob I/O.
     pub fn get_size(&self, key: &K) -> Result<Option<u64>, LibError> {
-        self.with_blob_item(key, |item| Ok(item.blob_size))
+        Ok(self.index.read_state().get_item(key).map(|item| item.blob_size))
     }
 
     /// Get a `BufReader` by key.
     /// Returns `Ok(None)` if the key does not exist.
     /// Safe to hold for long periods, will stream data even if the key was deleted.
     pub fn get_reader(&self, key: &K) -> Result<Option<BufReader<File>>, LibError> {
-        self.with_blob_item(key, |item| self.cas_manager.blob_bufreader(&item.blob_hash))
+        self.with_blob_file(key, CasIoOperation::OpenBuffered, |_item, _path, file| {
+            Ok(BufReader::new(file))
+        })
     }
 
     /// Get a range of bytes from a blob.
@@ -320,13 +324,13 @@ where
         range_start: u64,
         range_end: u64,
     ) -> Result<Option<bytes::Bytes>, LibError> {
-        self.with_blob_item(key, |item| {
+        self.with_blob_file(key, CasIoOperation::OpenRangeRead, |item, path, file| {
             if range_start >= item.blob_size {
                 return Ok(bytes::Bytes::new());
             }
             let range_end = std::cmp::min(range_end, item.blob_size);
 
-            self.cas_manager.read_blob_range(&item.blob_hash, range_start, range_end)
+            CasManager::read_blob_range(path, &file, range_start, range_end)
         })
     }
 
@@ -383,15 +387,29 @@ where
         self.index.checkpoint(CheckpointReason::Explicit).map_err(LibError::Index)
     }
 
-    fn with_blob_item<T, F>(&self, key: &K, f: F) -> Result<Option<T>, LibError>
+    fn with_blob_file<T, F>(
+        &self,
+        key: &K,
+        open_operation: CasIoOperation,
+        f: F,
+    ) -> Result<Option<T>, LibError>
     where
-        F: FnOnce(&IndexStateItem) -> Result<T, CasManagerError>,
+        F: FnOnce(&IndexStateItem, &Path, File) -> Result<T, CasManagerError>,
     {
-        let Some(item) = self.index.read_state().get_item(key) else {
-            return Ok(None);
+        // Open the blob while the index is still read-locked. A concurrent overwrite or removal
+        // unlinks the old blob only after it has updated the index, which needs the write lock;
+        // looking the hash up, releasing the lock and opening the file afterwards could find the
+        // blob already gone although the key was present throughout. Once the file is open its
+        // content stays readable even when unlinked, so the read itself runs without the lock.
+        let (item, opened) = {
+            let state = self.index.read_state();
+            let Some(item) = state.get_item(key) else {
+                return Ok(None);
+            };
+            (item, self.cas_manager.open_blob(&item.blob_hash, open_operation))
         };
 
-        match f(&item) {
+        match opened.and_then(|(path, file)| f(&item, &path, file)) {
             Ok(result) => Ok(Some(result)),
             Err(cas_error) => {
                 if let Some(io_err) =
